@@ -3,6 +3,7 @@ import SakuraVerif.Gen.Consts
 import SakuraVerif.Lemmas.ScriptStack
 import SakuraVerif.Lemmas.ScriptScope
 import SakuraVerif.Lemmas.ScriptFlags
+import SakuraVerif.Lemmas.ScriptLaws
 /-! # C11 (mechanism level) — IF/FOR/WHILE/BREAK/CONTINUE behave like the unrolled program
 
 `execWhile` / `execFor` model `runner::exec_while` / `exec_for` literally, parametric in the effect
@@ -171,6 +172,31 @@ theorem C11_for_consumes_break (fns : List Fn) (f : Nat) (line : Int) (c n b : L
     (hn : ∀ g s, s.brk ≠ 1 ∧ s.brk ≠ 2 → (execList fns g n s).brk ≠ 1 ∧ (execList fns g n s).brk ≠ 2) (hs : s.brk ≠ 1 ∧ s.brk ≠ 2) :
     (forGo fns f line c n b k s).brk ≠ 1 ∧ (forGo fns f line c n b k s).brk ≠ 2 :=
   for_consumes_break fns f line c n b k s hc hn hs
+
+open Sakura.Sx in
+/-- **IF runs exactly one branch** (literal runner): the THEN block when the condition's value is not 0, else the ELSE block -/
+theorem C11_if_runs_one_branch (fns : List Fn) (f : Nat) (vi tag line : Int) (vs : Option (List Nat)) (data : List Dat) (c th el : Tok)
+    (rest : List Tok) (s : St) :
+    execTok fns (f + 1) (.mk .if_ vi tag line vs data (some (c :: th :: el :: rest))) s =
+      (if (valueWith (execList fns f) c.kids s).1.toI ≠ 0
+       then execList fns f th.kids (valueWith (execList fns f) c.kids s).2
+       else execList fns f el.kids (valueWith (execList fns f) c.kids s).2) :=
+  if_one_branch fns f vi tag line vs data c th el rest s
+
+open Sakura.Sx in
+/-- **RETURN (and BREAK, CONTINUE) end the run of a block at once**: what follows a statement that leaves a flag pending is not executed -/
+theorem C11_return_ends_block (fns : List Fn) (f : Nat) (t : Tok) (rest : List Tok) (s : St) (hs : s.brk = 0)
+    (ht : (execTok fns (f + 1) t s).brk ≠ 0) :
+    execList fns (f + 2) (t :: rest) s = execTok fns (f + 1) t s :=
+  after_flag_nothing_runs fns f t rest s hs ht
+
+open Sakura.Sx in
+/-- **arguments are bound positionally; an omitted one takes its declared default** -/
+theorem C11_args_bound_positionally (fn : Fn) (argv : List V) (s : St) (hs : s.scopes ≠ []) (hnd : fn.args.Nodup) (i : Nat)
+    (hi : i < fn.args.length) :
+    getVar (bindParams fn argv s).scopes (fn.args[i]) =
+      some (match argv.getD i none with | none => fn.defs.getD i none | some x => some x) :=
+  bindParams_binds fn argv s hs hnd i hi
 
 -- non-vacuity: the token list of `FUNCTION FA(JB=7){ RETURN(JB) } FA(); PRINT(FA())` is inside the classes
 open Sakura.Sx in
